@@ -1331,6 +1331,7 @@ func (ck *Check) terminateChunking(rule string) {
 		return
 	}
 	var batch *ssa.Slice
+	var peelBatch ssa.Value
 	okBatch := false
 	// idiom C, peeling: for rem := ids; len(rem) > 0; { k := min(K, len(rem)); batch := rem[:k]; rem = rem[k:] }
 	peeled := false
@@ -1338,6 +1339,7 @@ func (ck *Check) terminateChunking(rule string) {
 		if _, isParam := pl.Init.(*ssa.Parameter); isParam {
 			peeled = true
 			batch, okBatch = pl.Batch, true
+			peelBatch = pl.BatchV
 			ck.cond(pl.K >= 1 && pl.K <= 1000, rule, key+"/chunk-size", ck.P.instrPos(pl.Rem), funcID(fn), "step k ≤ 1000 (TerminateInstances limit)", fmt.Sprint(pl.K), "")
 		}
 	}
@@ -1487,11 +1489,17 @@ func (ck *Check) terminateChunking(rule string) {
 	// one append per element, or written index by index into a make of the batch's length — in the
 	// loop body itself, or in the thin wrapper that is handed the batch
 	idsFn, ictx := fn, ctx
-	var B ssa.Value = batch
+	var B ssa.Value
+	if batch != nil {
+		B = batch
+	} else if peelBatch != nil {
+		B = peelBatch
+	}
 	if es.Wrapper != nil {
+		handed := B
 		idsFn, ictx, B = es.Wrapper, es.Ctx, nil
 		for i, av := range call.Common().Args {
-			if batch != nil && av == ssa.Value(batch) && i < len(es.Wrapper.Params) {
+			if handed != nil && av == handed && i < len(es.Wrapper.Params) {
 				B = es.Wrapper.Params[i]
 			}
 		}
@@ -2448,10 +2456,66 @@ func closureResult(ctx *Ctx, mc *ssa.MakeClosure, args []*Term) *Formula {
 // — every trip takes a non-empty prefix of at most K elements off the remaining slice; the
 // batches partition S in order.
 type peelLoop struct {
-	Rem   *ssa.Phi
-	Init  ssa.Value
-	Batch *ssa.Slice
-	K     int64
+	Rem    *ssa.Phi
+	Init   ssa.Value
+	Batch  *ssa.Slice
+	BatchV ssa.Value // the batch as a value: Batch, or result 0 of a split helper
+	K      int64
+}
+
+// splitHelper: h(s, size) returns (s[:c], s[c:]) with c = min(size, len(s)), in one block. Returns
+// the indices of the list and size parameters.
+func splitHelper(ck *Check, h *ssa.Function) (int, int, bool) {
+	if h == nil || h.Blocks == nil || len(h.Blocks) != 1 || h.Signature.Results().Len() != 2 {
+		return 0, 0, false
+	}
+	r, ok := h.Blocks[0].Instrs[len(h.Blocks[0].Instrs)-1].(*ssa.Return)
+	if !ok || len(r.Results) != 2 {
+		return 0, 0, false
+	}
+	head, ok1 := r.Results[0].(*ssa.Slice)
+	tail, ok2 := r.Results[1].(*ssa.Slice)
+	if !ok1 || !ok2 || head.X != tail.X || head.Low != nil || head.High == nil || tail.Low != head.High || tail.High != nil {
+		return 0, 0, false
+	}
+	sp, ok := head.X.(*ssa.Parameter)
+	if !ok {
+		return 0, 0, false
+	}
+	cut, ok := head.High.(*ssa.Call)
+	if !ok || len(cut.Common().Args) != 2 {
+		return 0, 0, false
+	}
+	isMin := false
+	if b, ok := cut.Common().Value.(*ssa.Builtin); ok && b.Name() == "min" {
+		isMin = true
+	} else if f := cut.Common().StaticCallee(); f != nil && ck.isMinHelper(f) {
+		isMin = true
+	}
+	if !isMin {
+		return 0, 0, false
+	}
+	var kp *ssa.Parameter
+	for i := 0; i < 2; i++ {
+		p, isP := cut.Common().Args[i].(*ssa.Parameter)
+		lc, isLen := isBuiltinCall(cut.Common().Args[1-i], "len")
+		if isP && isLen && lc.Common().Args[0] == ssa.Value(sp) {
+			kp = p
+		}
+	}
+	if kp == nil {
+		return 0, 0, false
+	}
+	si, ki := -1, -1
+	for i, p := range h.Params {
+		if p == sp {
+			si = i
+		}
+		if p == kp {
+			ki = i
+		}
+	}
+	return si, ki, si >= 0 && ki >= 0
 }
 
 func peelLoopOf(ck *Check, l *Loop) *peelLoop {
@@ -2466,6 +2530,7 @@ func peelLoopOf(ck *Check, l *Loop) *peelLoop {
 		}
 		pl := &peelLoop{Rem: ph}
 		var rest *ssa.Slice
+		var viaSplit *ssa.Call
 		good := true
 		for i, e := range ph.Edges {
 			if !l.Blocks[h.Preds[i]] {
@@ -2475,12 +2540,56 @@ func peelLoopOf(ck *Check, l *Loop) *peelLoop {
 				pl.Init = e
 				continue
 			}
+			// the rest may be result 1 of a split helper applied to the remaining slice
+			if ex, ok := e.(*ssa.Extract); ok && ex.Index == 1 {
+				if c, ok := ex.Tuple.(*ssa.Call); ok {
+					if si, ki, isSplit := splitHelper(ck, c.Common().StaticCallee()); isSplit && si < len(c.Common().Args) && ki < len(c.Common().Args) && c.Common().Args[si] == ssa.Value(ph) {
+						if k, isK := c.Common().Args[ki].(*ssa.Const); isK && k.Value != nil && k.Int64() >= 1 && (viaSplit == nil || viaSplit == c) {
+							viaSplit = c
+							pl.K = k.Int64()
+							continue
+						}
+					}
+				}
+			}
 			sl, ok := e.(*ssa.Slice)
 			if !ok || sl.X != ssa.Value(ph) || sl.Low == nil || sl.High != nil || sl.Max != nil || (rest != nil && rest != sl) {
 				good = false
 				continue
 			}
 			rest = sl
+		}
+		if good && viaSplit != nil && rest == nil && pl.Init != nil {
+			// header test and dominance as below
+			br, ok := h.Instrs[len(h.Instrs)-1].(*ssa.If)
+			if !ok {
+				continue
+			}
+			bo, ok := br.Cond.(*ssa.BinOp)
+			if !ok {
+				continue
+			}
+			lc, isLen := isBuiltinCall(bo.X, "len")
+			k0, isK0 := bo.Y.(*ssa.Const)
+			stays := l.Blocks[h.Succs[0]] && !l.Blocks[h.Succs[1]]
+			if !(isLen && lc.Common().Args[0] == ssa.Value(ph) && isK0 && k0.Int64() == 0 && stays && (bo.Op == token.GTR || bo.Op == token.NEQ)) {
+				continue
+			}
+			okDom := true
+			for _, p := range h.Preds {
+				if l.Blocks[p] && !viaSplit.Block().Dominates(p) {
+					okDom = false
+				}
+			}
+			for _, r := range *viaSplit.Referrers() {
+				if ex, ok := r.(*ssa.Extract); ok && ex.Index == 0 {
+					pl.BatchV = ex
+				}
+			}
+			if okDom && pl.BatchV != nil {
+				return pl
+			}
+			continue
 		}
 		if !good || rest == nil || pl.Init == nil {
 			continue
@@ -2532,6 +2641,7 @@ func peelLoopOf(ck *Check, l *Loop) *peelLoop {
 			for _, in2 := range b.Instrs {
 				if sl, ok := in2.(*ssa.Slice); ok && sl.X == ssa.Value(ph) && sl.Low == nil && sl.High == split && sl.Max == nil {
 					pl.Batch = sl
+					pl.BatchV = sl
 				}
 			}
 		}
